@@ -207,6 +207,17 @@ def fixtureLabel (rel : Bytes) : FsPathSpec.Label :=
   | some (_, l) => l
   | none => if (sb "root/").isPrefixOf rel then .bucketNode else .outside
 
+/-- the nodes of the harness's layout (`h_fspath.rs::layout`) an object path can name, relative to the backend's root -/
+def layoutObjectNodes : List String :=
+  ["bucket-a/obj", "bucket-a/dir", "bucket-a/dir/inner", "bucket-a/empty",
+   "bucket-b/obj", "bucket-b/secret", "bucket-b/dir", "bucket-b/dir/inner"]
+
+/-- `delete_object` of a key at whose path nothing exists succeeds without touching anything (fe75a0e) -/
+def deleteOfNothing (root : Bytes) (o : Op) (p : Bytes) : Bool :=
+  match o with
+  | .deleteObject .. => !(layoutObjectNodes.any fun r => components (root ++ 47 :: sb r) == components p)
+  | _ => false
+
 def judgeCase (outerB cwd : Bytes) (id : String) (i : Inp) (code : String) (changes : List Chg)
     (revealed : List String) (freshUuid : Bytes) : String :=
   let envD : Env := { cwd := cwd, root := outerB ++ sb "/root" }
@@ -261,6 +272,7 @@ def judgeCase (outerB cwd : Bytes) (id : String) (i : Inp) (code : String) (chan
               | some p =>
                 changes.any (fun c => components (absOf c.rel) == components p)
                   || revealed.any (fun r => (hexDecode r).any fun rel => components (absOf rel) == components p)
+                  || (changes.isEmpty && deleteOfNothing envD.root o p)
           if !primOk then disagree id "primary-path-touched" s!"code=OK but {hexEncode (prim.getD [])} untouched"
           else
             let pre := if http then "http-" else ""
